@@ -384,4 +384,196 @@ theorem OwnersReal.lt {g : Graph} (h : OwnersReal g) {n u : Nat} (hn : n < g.nod
   rw [ho] at this
   simpa using this
 
+/-! ## results, listed workers, classes -/
+
+theorem mem_dedup' (l : List Nat) (a : Nat) : a ∈ dedupNat l ↔ a ∈ l := by
+  induction l with
+  | nil => simp [dedupNat]
+  | cons b l ih =>
+    unfold dedupNat
+    by_cases h : l.contains b = true
+    · simp only [h, if_true, ih, List.mem_cons]
+      constructor
+      · exact Or.inr
+      · rintro (rfl | h')
+        · simpa using h
+        · exact h'
+    · simp only [h, Bool.false_eq_true, if_false, List.mem_cons, ih]
+
+/-- the workers `pull_locations` names for parent `p`: first worker (in swarm order) whose id occurs in the name of a
+passing result of the class -/
+theorem mem_listed (g : Graph) (s : State) (p v : Nat) :
+    v ∈ sharedResultWorkerIds g s p ↔
+      ∃ r ∈ sharedResults g s p, r.status = "PASS" ∧
+        (List.range g.workers.length).find? (fun w => strIn (g.worker w).id r.name) = some v := by
+  unfold sharedResultWorkerIds
+  rw [mem_dedup', List.mem_filterMap]
+  constructor
+  · rintro ⟨r, hr, h⟩
+    by_cases hp : r.status = "PASS"
+    · simp only [hp, bne_self_eq_false, Bool.false_eq_true, if_false] at h
+      exact ⟨r, hr, hp, h⟩
+    · have : (r.status != "PASS") = true := by simpa using hp
+      simp [this] at h
+  · rintro ⟨r, hr, hp, h⟩
+    refine ⟨r, hr, ?_⟩
+    simp [hp, h]
+
+theorem find?_range_unique (p : Nat → Bool) (n u : Nat) (hu : u < n) (hp : p u = true)
+    (huniq : ∀ x, x < n → p x = true → x = u) : (List.range n).find? p = some u := by
+  cases h : (List.range n).find? p with
+  | none =>
+    rw [List.find?_eq_none] at h
+    exact absurd hp (h u (List.mem_range.mpr hu))
+  | some x =>
+    have h1 := List.find?_some h
+    have h2 := List.mem_range.mp (List.mem_of_find?_eq_some h)
+    rw [huniq x h2 h1]
+
+/-- a passing result under the name of a parsed copy lists the owner of the copy -/
+theorem listed_of_pass {g : Graph} (hO : OwnerNames g) (hR : OwnersReal g) {s : State} {p q u : Nat} {r : Result}
+    (hq : q < g.nodes.length) (hfq : (g.node q).flat = false) (ho : (g.node q).owner = some u)
+    (hr : r ∈ sharedResults g s p) (hn : r.name = (g.node q).name) (hs : r.status = "PASS") :
+    u ∈ sharedResultWorkerIds g s p := by
+  rw [mem_listed]
+  refine ⟨r, hr, hs, ?_⟩
+  rw [hn]
+  refine find?_range_unique (fun w => g.idIn w q) _ u (hR.lt hq ho) ((hO u q hq hfq).mpr ho) ?_
+  intro x _ hx
+  have := (hO x q hq hfq).mp hx
+  rw [ho] at this
+  exact (Option.some.inj this).symm
+
+theorem mem_copies_iff (g : Graph) (p i : Nat) (hp : p < g.nodes.length) (hf : (g.node p).flat = false) :
+    i ∈ g.copies p ↔ i < g.nodes.length ∧ (g.node i).cls = (g.node p).cls := by
+  constructor
+  · intro h
+    unfold Graph.copies at h
+    simp only [hf, Bool.false_eq_true, if_false, List.mem_cons, List.mem_filter] at h
+    rcases h with rfl | ⟨h, _⟩
+    · exact ⟨hp, rfl⟩
+    · exact (mem_classNodes g _ i).mp h
+  · intro h
+    exact mem_copies g i p h.1 hf h.2
+
+theorem mem_sharedResults_iff (g : Graph) (s : State) (p : Nat) (r : Result) :
+    r ∈ sharedResults g s p ↔ ∃ i ∈ g.copies p, r ∈ (s.nd i).results := by
+  unfold sharedResults
+  rw [List.mem_flatMap]
+
+theorem mem_sharedFinished (g : Graph) (s : State) (n v : Nat) :
+    v ∈ sharedFinished g s n ↔ ∃ i, i ∈ g.copies n ∧ (s.nd i).finished = some v := by
+  unfold sharedFinished
+  rw [mem_dedup']
+  simp [List.mem_filterMap]
+
+/-- the shared results of two parsed copies of one class are the same (as sets) -/
+theorem sharedResults_class (g : Graph) (s : State) (p p' : Nat) (hp : p < g.nodes.length) (hp' : p' < g.nodes.length)
+    (hf : (g.node p).flat = false) (hf' : (g.node p').flat = false) (hc : (g.node p).cls = (g.node p').cls) (r : Result)
+    (h : r ∈ sharedResults g s p) : r ∈ sharedResults g s p' := by
+  rw [mem_sharedResults_iff] at h ⊢
+  obtain ⟨i, hi, hr⟩ := h
+  rw [mem_copies_iff g p i hp hf] at hi
+  exact ⟨i, (mem_copies_iff g p' i hp' hf').mpr ⟨hi.1, hi.2.trans hc⟩, hr⟩
+
+/-! ## the semantic invariant -/
+
+/-- the parsed copy `q` has a result (or a placeholder) under its own name -/
+def HasRes (g : Graph) (s : State) (q : Nat) : Prop := ∃ r ∈ (s.nd q).results, r.name = (g.node q).name
+
+/-- provenance of the pools: what is in a pool was there initially or was produced by the pool's worker on one of its
+own parsed copies, which has a result -/
+def Prov (g : Graph) (store0 : List (String × List (String × String))) (s : State) : Prop :=
+  ∀ loc vs, vs ∈ storeGet s.store loc → vs ∈ storeGet store0 loc ∨
+    ∃ u q, loc = (g.worker u).id ∧ q < g.nodes.length ∧ (g.node q).flat = false ∧ (g.node q).owner = some u ∧
+      vs ∈ (g.node q).sets ∧ HasRes g s q
+
+/-- the state `vs` of the class of `p` is sourced: it is in the shared pool, or in the pool of a worker that
+`pull_locations` names for `p`, or the class has a result that did not pass -/
+def Src (g : Graph) (s : State) (p : Nat) (vs : String × String) : Prop :=
+  vs ∈ storeGet s.store "shared" ∨
+  (∃ u ∈ sharedResultWorkerIds g s p, vs ∈ storeGet s.store (g.worker u).id) ∨
+  (∃ r ∈ sharedResults g s p, r.status ≠ "PASS")
+
+/-- the states set by a traversed parsed copy are sourced -/
+def FinSrc (g : Graph) (s : State) : Prop :=
+  ∀ p, p < g.nodes.length → (g.node p).flat = false → (s.nd p).finished.isSome = true → ∀ vs ∈ (g.node p).sets, Src g s p vs
+
+structure Sem (g : Graph) (store0 : List (String × List (String × String))) (s : State) : Prop where
+  prov : Prov g store0 s
+  fin : FinSrc g s
+
+theorem Src.congr {g : Graph} {s : State} {p p' : Nat} {vs : String × String} (hp : p < g.nodes.length)
+    (hp' : p' < g.nodes.length) (hf : (g.node p).flat = false) (hf' : (g.node p').flat = false)
+    (hc : (g.node p).cls = (g.node p').cls) (h : Src g s p vs) : Src g s p' vs := by
+  rcases h with h | ⟨u, hu, h⟩ | ⟨r, hr, h⟩
+  · exact Or.inl h
+  · refine Or.inr (Or.inl ⟨u, ?_, h⟩)
+    rw [mem_listed] at hu ⊢
+    obtain ⟨r, hr, h1, h2⟩ := hu
+    exact ⟨r, sharedResults_class g s p p' hp hp' hf hf' hc r hr, h1, h2⟩
+  · exact Or.inr (Or.inr ⟨r, sharedResults_class g s p p' hp hp' hf hf' hc r hr, h⟩)
+
+/-- same store, same `finished` marks, result lists only gain members -/
+structure Grow (s s' : State) : Prop where
+  store : s'.store = s.store
+  fin : ∀ m, (s'.nd m).finished = (s.nd m).finished
+  results : ∀ m r, r ∈ (s.nd m).results → r ∈ (s'.nd m).results
+
+theorem Frame.grow {s s' : State} (a : Frame s s') : Grow s s' :=
+  ⟨a.store, a.fin, fun m r h => by rw [a.results m]; exact h⟩
+
+theorem Grow.sharedResults {s s' : State} (a : Grow s s') (g : Graph) (p : Nat) (r : Result)
+    (h : r ∈ sharedResults g s p) : r ∈ sharedResults g s' p := by
+  rw [mem_sharedResults_iff] at h ⊢
+  obtain ⟨i, hi, hr⟩ := h
+  exact ⟨i, hi, a.results i r hr⟩
+
+theorem Grow.src {s s' : State} (a : Grow s s') {g : Graph} {p : Nat} {vs : String × String} (h : Src g s p vs) :
+    Src g s' p vs := by
+  rcases h with h | ⟨u, hu, h⟩ | ⟨r, hr, h⟩
+  · exact Or.inl (by rw [a.store]; exact h)
+  · refine Or.inr (Or.inl ⟨u, ?_, by rw [a.store]; exact h⟩)
+    rw [mem_listed] at hu ⊢
+    obtain ⟨r, hr, h1, h2⟩ := hu
+    exact ⟨r, a.sharedResults g p r hr, h1, h2⟩
+  · exact Or.inr (Or.inr ⟨r, a.sharedResults g p r hr, h⟩)
+
+theorem Sem.grow {g : Graph} {store0 : List (String × List (String × String))} {s s' : State} (j : Sem g store0 s)
+    (a : Grow s s') : Sem g store0 s' := by
+  refine ⟨fun loc vs h => ?_, fun p hp hf hfin vs hvs => ?_⟩
+  · rw [a.store] at h
+    rcases j.prov loc vs h with h' | ⟨u, q, h1, h2, h3, h4, h5, r, hr, hn⟩
+    · exact Or.inl h'
+    · exact Or.inr ⟨u, q, h1, h2, h3, h4, h5, r, a.results q r hr, hn⟩
+  · rw [a.fin] at hfin
+    exact a.src (j.fin p hp hf hfin vs hvs)
+
+theorem Sem.frame {g : Graph} {store0 : List (String × List (String × String))} {s s' : State} (j : Sem g store0 s)
+    (a : Frame s s') : Sem g store0 s' := j.grow a.grow
+
+/-- the end of `traverse_node` on a copy whose set states are sourced -/
+theorem Sem.finish {g : Graph} {store0 : List (String × List (String × String))} {s : State} (j : Sem g store0 s)
+    (p w : Nat) (hsrc : p < g.nodes.length → (g.node p).flat = false → ∀ vs ∈ (g.node p).sets, Src g s p vs) :
+    Sem g store0 (finishTraverse s p w) := by
+  have hres : ∀ m, ((finishTraverse s p w).nd m).results = (s.nd m).results := fun m =>
+    nd_setNd_proj (·.results) s p (fun d => { d with finished := some w, started := none }) (fun _ => rfl) m
+  have hg : ∀ {q vs}, Src g s q vs → Src g (finishTraverse s p w) q vs := by
+    intro q vs h
+    rcases h with h | ⟨u, hu, h⟩ | ⟨r, hr, h⟩
+    · exact Or.inl h
+    · refine Or.inr (Or.inl ⟨u, ?_, h⟩)
+      rw [sharedResultWorkerIds_congr g s _ q hres]; exact hu
+    · exact Or.inr (Or.inr ⟨r, by rw [sharedResults_congr g s _ q hres]; exact hr, h⟩)
+  refine ⟨fun loc vs h => ?_, fun q hq hf hfin vs hvs => ?_⟩
+  · rcases j.prov loc vs h with h' | ⟨u, q, h1, h2, h3, h4, h5, r, hr, hn⟩
+    · exact Or.inl h'
+    · exact Or.inr ⟨u, q, h1, h2, h3, h4, h5, r, by rw [hres]; exact hr, hn⟩
+  · by_cases hqp : q = p
+    · subst hqp; exact hg (hsrc hq hf vs hvs)
+    · have : ((finishTraverse s p w).nd q).finished = (s.nd q).finished := by
+        unfold finishTraverse; rw [nd_setNd_ne s p q _ hqp]
+      rw [this] at hfin
+      exact hg (j.fin q hq hf hfin vs hvs)
+
 end I2N.Trav
